@@ -47,6 +47,9 @@ def _name(s):
     return ast.Name(id=s, ctx=ast.Load())
 
 
+from .C05 import library_forms as _library_forms  # noqa: E402
+
+
 class Frame:
     """one enclosing loop: `sym` counts its iterations from `lo` (inclusive) to `hi` (exclusive); kind 'range' for counted
     loops, 'elems' for loops over the elements of arrays (count = number of elements of `over`)"""
@@ -89,7 +92,7 @@ class Flow:
                     return _clone(flow.env[node.id])
                 return node
         out = R().visit(_clone(e))
-        return self.push_subscripts(out)
+        return self.push_subscripts(_library_forms(out))
 
     def is_array_expr(self, e):
         """element-wise expression over the known 1-D arrays (at least one of them occurs)"""
@@ -459,11 +462,16 @@ def stencil_facts(chk):
             except Undecided:
                 cnt = None
             lin = sp.expand(sh - K)
-            if cnt is not None and not lin.has(K) and sp.simplify(cnt - NPTS) == 0:
-                facts["start"] = lin
-                facts["shift"] = lambda c, lin=lin: c + lin
-                for k, v in (("self._shifts[-1]", lin + NPTS - 1), ("self._shifts[0]", lin), ("self._shifts.max()", lin + NPTS - 1),
-                             ("self._shifts.min()", lin), ("np.max(self._shifts)", lin + NPTS - 1), ("np.min(self._shifts)", lin)):
+            slope = sp.simplify(sp.diff(sh, K)) if isinstance(sh, sp.Basic) else None
+            if cnt is not None and slope in (Integer(1), Integer(-1)) and sp.simplify(cnt - NPTS) == 0:
+                # stored shift of entry c (K = arange(n) counts the entries); increasing (+1) or decreasing (-1) with c
+                first, last = sh.subs(K, 0), sh.subs(K, NPTS - 1)
+                if slope == 1:
+                    facts["start"] = lin
+                facts["shift"] = lambda c, sh=sh: sh.subs(K, c)
+                hi_, lo_ = (last, first) if slope == 1 else (first, last)
+                for k, v in (("self._shifts[-1]", last), ("self._shifts[0]", first), ("self._shifts.max()", hi_),
+                             ("self._shifts.min()", lo_), ("np.max(self._shifts)", hi_), ("np.min(self._shifts)", lo_)):
                     ns.hooks[k] = v
                 ns.run(fn.body)
             elif cnt is not None and sh is not None:
@@ -474,7 +482,61 @@ def stencil_facts(chk):
             if v is not None and not v.has(K):
                 facts[key] = v
     cache["facts"] = facts
+    # what an entry of self._shifts MEANS is fixed by the scatter of parallel_gradient: the contribution of source row k, entry j goes
+    # to row k - tau_j.  tau_j is the stored shift itself in the reference convention; another convention (opposite sign, offset) is
+    # followed consistently through the moment system, the angle table and the regime bounds
+    facts["conv"] = lambda x: x
+    facts["conv_text"] = None
+    try:
+        g = scatter_convention(chk)
+    except Exception:          # noqa: BLE001 - no convention read off: the reference one is assumed, the scatter rules report what they meet
+        g = None
+    if g is not None:
+        X_ = Symbol("_stored_shift")
+        facts["conv"] = lambda x, g=g, X_=X_: g.subs(X_, x)
+        if sp.simplify(g - X_) != 0:
+            facts["conv_text"] = str(g.subs(X_, Symbol("shifts[j]")))
+    if "shift" in facts:
+        facts["tau"] = lambda c: facts["conv"](facts["shift"](c))
+        t0 = sp.expand(facts["tau"](Symbol("c_", integer=True)) - Symbol("c_", integer=True))
+        if not t0.has(Symbol("c_", integer=True)):
+            facts["start"] = t0
+        else:
+            facts.pop("start", None)
     return facts
+
+
+def scatter_convention(chk):
+    """effective shift tau = g(stored shift) read off the accumulation targets of parallel_gradient (target row = source row - tau):
+    sympy expression in the symbol `_stored_shift`, or None when the targets are not of this form / disagree"""
+    m = scatter_model(chk)
+    X_ = Symbol("_stored_shift")
+    gs = []
+    for c in m["contribs"] + [c_ for c_ in m.get("buffered", []) if c_ not in m["contribs"]]:
+        if c.row is None or c.sten is None:
+            return None
+        k, j = Symbol(c.row.sym, integer=True), Symbol(c.sten.sym, integer=True)
+        tgt = getattr(c, "buffer_target", None) or c.target
+        try:
+            core, _ = strip_mod(to_sym(tgt))
+        except Undecided:
+            return None
+        tau = sp.expand(k - core)
+        if getattr(c, "buffer_target", None) is not None:
+            # through a work array: the constant offset of the ghost rows is not part of the convention
+            tau = sp.expand(tau - tau.subs(SHIFT(j), 0))
+        e2 = tau.subs(SHIFT(j), X_)
+        if e2.free_symbols - {X_} or e2.atoms(sp.Function) or not e2.has(X_):
+            return None
+        gs.append(e2)
+    if not gs or any(sp.simplify(g - gs[0]) != 0 for g in gs):
+        return None
+    g = gs[0]
+    # a convention is an invertible relabelling: +-x + integer
+    a = sp.simplify(sp.diff(g, X_))
+    if a not in (Integer(1), Integer(-1)) or not sp.simplify(g - a * X_).is_integer:
+        return None
+    return g
 
 
 def concretise(v, facts):
@@ -553,8 +615,8 @@ def fd_system(chk):
             except Undecided:
                 got = None
             if got is not None:
-                want = facts["shift"](cj) ** ri
-                swapped = facts["shift"](ri) ** cj
+                want = facts["tau"](cj) ** ri
+                swapped = facts["tau"](ri) ** cj
                 solve_ok = isinstance(sol[0].value, ast.Call) and src(sol[0].value.func).split(".")[-1] == "solve" and \
                     [src(a) for a in sol[0].value.args] == ["A", "b"] and not sol[0].value.keywords
                 same = equal_for_all_n(got, want)[0]
@@ -563,6 +625,12 @@ def fd_system(chk):
                 elif same is False and equal_for_all_n(got, swapped)[0] is True:
                     bad = (f"`{src(asg[0])}` stores shift_row ** column: the matrix is the transpose of the moment system, so solve(A, b) "
                            "returns weights of a different functional than the first derivative")
+                elif same is False and full and solve_ok and equal_for_all_n(got, (-facts["tau"](cj)) ** ri)[0] is True:
+                    bad = (f"`{src(asg[0])}`: the weights solve the moment system for the nodes {sp.simplify(-facts['tau'](cj))} (entry j), but "
+                           f"parallel_gradient adds the contribution of source row k with weight j to row k - ({facts['tau'](cj)})"
+                           + (f" (it reads the stored shifts as {facts['conv_text']})" if facts.get("conv_text") else "") +
+                           ", i.e. pairs weight j with the source row at offset " f"{facts['tau'](cj)} from the target: every weight sits on the "
+                           "mirrored node - the derivative along the reversed field line (sign and, for odd orders, stencil are wrong)")
                 elif same is False and full and solve_ok:
                     bad = (f"`{src(asg[0])}`: entry (i, j) is {got}, expected shift_j ** i = {want}: the weights no longer satisfy "
                            "sum_j c_j shift_j^i = delta_{i1}")
@@ -737,6 +805,12 @@ class AxEval:
                 if isinstance(a, AxVal) and isinstance(b, AxVal) and sp.simplify(b.expr - 2 * PI) == 0:
                     return AxVal(Wrap(a.expr), a.axes)
                 raise Undecided(f"modulus of `{s[:40]}`")
+            if fs in ("np.fmod", "math.fmod", "fmod") and len(e.args) == 2:
+                # the remainder with the sign of the dividend: NOT the periodic wrap onto [0, 2 pi)
+                a, b = self.ev(e.args[0]), self.ev(e.args[1])
+                if isinstance(a, AxVal) and isinstance(b, AxVal):
+                    return AxVal(Function("fmod")(a.expr, b.expr), a.axes)
+                raise Undecided(f"fmod of `{s[:40]}`")
             if fs in ("np.broadcast_to",) and len(e.args) == 2 and isinstance(e.args[1], (ast.List, ast.Tuple)):
                 a = self.ev(e.args[0])
                 shp = e.args[1].elts
@@ -880,6 +954,12 @@ def _table_fill_model(chk):
         out["why"] = f"store target `{src(st.node.targets[0])}` is not an element/slice of the table"
         return out
     val = st.value
+    # caller and helper are one unit: `fieldline(...) % (2 pi)` stores the field-line angle reduced by the caller (whether helper and
+    # caller together reduce it is F6-sibling-geometry's subject)
+    if isinstance(val, ast.BinOp) and isinstance(val.op, ast.Mod) and isinstance(val.left, ast.Call) and src(val.right).replace(" ", "") in (
+            "2*pi", "2*np.pi", "pi*2", "np.pi*2", "2*math.pi", "2.0*pi", "2.0*np.pi"):
+        val = val.left
+        out["post_wrap"] = True
     if not (isinstance(val, ast.Call) and isinstance(val.func, ast.Name) and val.func.id == "fieldline"):
         out["why"] = f"the stored value `{src(st.node.value)[:60]}` is not a call of fieldline"
         return out
@@ -947,7 +1027,7 @@ def theta_table_by_value(chk, tm):
     from ..symx import Wrap
     val, node, q = tm["value"], tm["assign"], tm["q"]
     label = "table[i, (row,) c, :] = (theta + iota(r_i) * dz * shift_c / R0) mod 2 pi"
-    spec = Wrap(TH + IOTA(RI) * DZ * SHIFT(CSYM) / R0S)
+    spec = Wrap(TH + IOTA(RI) * DZ * stencil_facts(chk)["conv"](SHIFT(CSYM)) / R0S)
     e = val.expr
     bad, unknown = [], []
     same = isinstance(e, sp.Basic) and e.func == Wrap and alg_equal(e.args[0], spec.args[0])
@@ -1003,7 +1083,7 @@ def theta_table(chk):
     c = tm["col_sym"]
     diffs, unknown = [], []
     # the displacement along z for column c
-    want = DZ * SHIFT(c)
+    want = DZ * facts["conv"](SHIFT(c))
     got = tm["zdiff"]
     if not alg_equal(got, want):
         g2, w2 = concretise(got, facts), concretise(want, facts)
@@ -1164,7 +1244,8 @@ def scatter_model(chk):
     # `if c: continue` at the head of a row loop is read as `if c: pass else: <rest of the body>`
     fn_s, unstructured = structured(fn)
     fl = Flow(fn_s, arrays={"self._shifts", "self._coeffs"}).run()
-    m = {"fn": fn, "flow": fl, "contribs": [], "clears": [], "scales": [], "other_stores": [], "why": None}
+    m = {"fn": fn, "flow": fl, "contribs": [], "clears": [], "scales": [], "other_stores": [], "why": None, "buffered": [], "folds": [],
+         "fold_report": None}
     cache["scatter"] = m
     if unstructured:
         m["why"] = unstructured
@@ -1210,7 +1291,11 @@ def scatter_model(chk):
                 base = base.value
             if not (isinstance(base, ast.Name) and base.id == "P_der"):
                 if isinstance(base, ast.Name) and base.id.startswith("BUF_"):
-                    m["other_stores"].append(ev)
+                    c = _buffered_contribution(fl, m, ev, base.id, interp, evals)
+                    if c is not None:
+                        m["buffered"].append(c)
+                    else:
+                        m["other_stores"].append(ev)
                 continue
             in_loop = bool(ev.frames)
             tgt = ev.target
@@ -1224,7 +1309,10 @@ def scatter_model(chk):
                     if src(a) == src(tgt):
                         val, op = b, val.op
                         break
-            if not in_loop and whole and op is None:
+            piece = _fold_piece(fl, m, items, val, op) if not in_loop and m["buffered"] else None
+            if piece is not None:
+                m["folds"].append((ev,) + piece)
+            elif not in_loop and whole and op is None:
                 m["clears"].append((ev, val))
             elif not in_loop and whole and isinstance(op, (ast.Mult, ast.Div)):
                 m["scales"].append((ev, val, op))
@@ -1274,7 +1362,7 @@ def scatter_model(chk):
                     else:
                         c.src_row = it[1]
                     bufs = [n.id for n in ast.walk(val) if isinstance(n, ast.Name) and n.id.startswith("BUF_")]
-                    if len(bufs) == 1 and bufs[0] in evals and evals[bufs[0]][0].frames and evals[bufs[0]][0].frames[-1] is c.sten:
+                    if len(bufs) == 1 and bufs[0] in evals and evals[bufs[0]][0].frames and _same_iteration(evals[bufs[0]][0].frames, ev.frames, c.sten):
                         c.buf = bufs[0]
                         c.point = evals[bufs[0]][1]
                         c.eval_extra = evals[bufs[0]][2]
@@ -1284,7 +1372,221 @@ def scatter_model(chk):
             else:
                 m["other_stores"].append(ev)
                 m["why"] = m["why"] or f"store `{src(ev.node)[:60]}` into the result not modelled"
+    if m["buffered"]:
+        try:
+            _compose_folds(chk, m)
+        except Exception as e:          # noqa: BLE001 - undecided, never an alarm
+            m["why"] = m["why"] or f"scatter through a work array not followed: {type(e).__name__}: {e}"
     return m
+
+
+def _same_iteration(eval_frames, store_frames, sten):
+    """the eval_vector call that fills the scratch buffer runs in the same innermost iteration as the accumulation that consumes it
+    (whatever the nesting order of the row loop and the stencil loop)"""
+    return len(eval_frames) == len(store_frames) and all(a is b for a, b in zip(eval_frames, store_frames)) and any(f is sten for f in eval_frames)
+
+
+def _rows_of(e):
+    """(array expression, lower, upper) of a row selection `X`, `X[lo:hi]`, `X[lo:hi, :]` (None = open end); None for other forms"""
+    full = lambda i: isinstance(i, ast.Slice) and i.lower is None and i.upper is None and i.step is None
+    if isinstance(e, ast.Name):
+        return e, None, None
+    if isinstance(e, ast.Subscript) and isinstance(e.value, ast.Name):
+        items = list(e.slice.elts) if isinstance(e.slice, ast.Tuple) else [e.slice]
+        if items and isinstance(items[0], ast.Slice) and items[0].step is None and all(full(i) for i in items[1:]):
+            return e.value, items[0].lower, items[0].upper
+    return None
+
+
+def _buffered_contribution(fl, m, ev, buf, interp, evals):
+    """`BUF[offset + row - shift, :] += coeff * values` inside the row x stencil loops, BUF a two-axis work array allocated in the
+    method: the scatter goes through a work array that is folded onto the result afterwards"""
+    alloc = fl.buffers.get(buf)
+    shp = alloc.args[0] if alloc is not None and alloc.args else None
+    if not (isinstance(shp, (ast.Tuple, ast.List)) and len(shp.elts) == 2):
+        return None
+    tgt, val, op = ev.target, ev.value, ev.op
+    items = [] if isinstance(tgt, ast.Name) else (list(tgt.slice.elts) if isinstance(tgt.slice, ast.Tuple) else [tgt.slice])
+    full = lambda i: isinstance(i, ast.Slice) and i.lower is None and i.upper is None and i.step is None
+    if op is None and isinstance(val, ast.BinOp) and isinstance(val.op, ast.Add):
+        for a, b in ((val.left, val.right), (val.right, val.left)):
+            if src(a) == src(tgt):
+                val, op = b, val.op
+                break
+    if not (ev.frames and isinstance(op, (ast.Add, ast.Sub)) and items and not isinstance(items[0], ast.Slice) and all(full(i) for i in items[1:])):
+        return None
+    c = Contribution(ev)
+    c.op, c.target, c.value, c.into = op, items[0], val, buf
+    rows = [f for f in ev.frames if f.kind == "range"]
+    stens = [f for f in ev.frames if f.kind == "elems" or (f.kind == "range" and src(f.hi) in SIZES and src(f.lo) == "0")]
+    rows = [f for f in rows if f not in stens]
+    if len(rows) != 1 or len(stens) != 1 or any(f.kind == "other" for f in ev.frames):
+        return None
+    c.row, c.sten = rows[0], stens[0]
+    it = interp.get(id(c.row))
+    if it is None:
+        c.problems.append("no compute_interpolant call in the row loop before the accumulation")
+    else:
+        c.src_row = it[1]
+    bufs = [n.id for n in ast.walk(val) if isinstance(n, ast.Name) and n.id.startswith("BUF_")]
+    if len(bufs) == 1 and bufs[0] in evals and evals[bufs[0]][0].frames and _same_iteration(evals[bufs[0]][0].frames, ev.frames, c.sten):
+        c.buf = bufs[0]
+        c.point = evals[bufs[0]][1]
+        c.eval_extra = evals[bufs[0]][2]
+    else:
+        c.problems.append("the accumulated value is not (weight) x (buffer filled by eval_vector in the same stencil iteration)")
+    return c
+
+
+def _fold_piece(fl, m, items, val, op):
+    """`der[a:b, :] (=|+=) BUF[c:d]` after the loops, BUF a work array that received stencil contributions:
+    (result lower, result upper, buffer, buffer lower, buffer upper, 'assign'|'add') with None for open ends"""
+    full = lambda i: isinstance(i, ast.Slice) and i.lower is None and i.upper is None and i.step is None
+    if op is not None and not isinstance(op, ast.Add):
+        return None
+    r = _rows_of(val)
+    if r is None or not (isinstance(r[0], ast.Name) and r[0].id in {c.into for c in m["buffered"]}):
+        return None
+    if not items:
+        dlo = dhi = None
+    elif isinstance(items[0], ast.Slice) and items[0].step is None and all(full(i) for i in items[1:]):
+        dlo, dhi = items[0].lower, items[0].upper
+    else:
+        return None
+    return dlo, dhi, r[0].id, r[1], r[2], ("assign" if op is None else "add")
+
+
+def _compose_folds(chk, m):
+    """scatter through a work array with ghost rows: contribution (row k, entry j) goes to buffer row a = offset + k - s_j; the fold
+    statements send buffer row x of [c, d) to result row x - c + a0.  Composed, every contribution must reach result row
+    (k - s_j) mod nz: (1) a stays inside the buffer for the extreme shifts (a negative index would silently count from the other end),
+    (2) the folded ranges tile the buffer, (3) each piece shifts by a multiple of nz relative to k - s_j.  On success the buffered
+    contributions are handed on as contributions to row (k - s_j) mod nz."""
+    fl = m["flow"]
+    facts = stencil_facts(chk)
+    bad, unknown = [], []
+    bufs = sorted({c.into for c in m["buffered"]})
+    node = m["buffered"][0].ev.node
+    if len(bufs) != 1:
+        unknown.append(f"stencil contributions go to {len(bufs)} work arrays")
+    buf = bufs[0]
+    shp = fl.buffers[buf].args[0]
+    alloc_name = src(fl.buffers[buf].func).split(".")[-1]
+    try:
+        M = to_sym(fl.resolve(shp.elts[0]))
+    except Undecided as e:
+        M = None
+        unknown.append(f"number of rows of the work array: {e}")
+    offsets = []
+    for c in m["buffered"]:
+        if c.problems:
+            unknown += c.problems
+            continue
+        k, j = Symbol(c.row.sym, integer=True), Symbol(c.sten.sym, integer=True)
+        try:
+            core = to_sym(c.target)
+            lo, hi = to_sym(c.row.lo), to_sym(c.row.hi)
+        except Undecided as e:
+            unknown.append(f"work-array row `{src(c.target)}`: {e}")
+            continue
+        off = sp.simplify(core - (k - SHIFT(j)))
+        if off.has(k) or off.has(j) or off.has(SHIFT):
+            if sp.simplify(core - (k + SHIFT(j))).has(k) is False and not sp.simplify(core - (k + SHIFT(j))).has(SHIFT):
+                bad.append(f"the contribution of source row k with shift s goes to work-array row {core}, i.e. to k + s instead of k - s")
+            else:
+                unknown.append(f"work-array row {core} is not offset + (source row) - shift_j")
+            continue
+        offsets.append(off)
+        if M is None or "shift" not in facts:
+            unknown.append("the extreme shifts are not extractable from getCoeffsFirstDeriv: range of the work-array rows not decided")
+            continue
+        amin = off + lo - facts["shift"](NPTS - 1)
+        amax = off + hi - 1 - facts["shift"](Integer(0))
+        t = Symbol("t", integer=True, nonnegative=True)
+        for par, idx in (("even", 0), ("odd", 1)):
+            nsub = parities(NPTS)[idx]
+            lo_v = sp.simplify(parities(concretise(amin, facts))[idx].subs(NZ, nsub + t))
+            hi_v = sp.simplify(parities(concretise(M - 1 - amax, facts))[idx].subs(NZ, nsub + t))
+            s_lo, s_hi = sign_for_all(lo_v), sign_for_all(hi_v)
+            if s_lo == "neg":
+                bad.append(f"for an {par} number of stencil points (order {'odd' if par == 'even' else 'even'}) the contribution of source row "
+                           f"{sp.simplify(lo)} with the largest shift goes to work-array row {sp.simplify(parities(concretise(amin, facts))[idx])} "
+                           f"(`{src(c.ev.node)[:60].replace('P_', '')}` with offset {off} = {sp.simplify(parities(concretise(off, facts))[idx])}, "
+                           f"largest shift {sp.simplify(parities(concretise(facts['shift'](NPTS - 1), facts))[idx])}): "
+                           "a negative index silently counts from the END of the work array, i.e. lands in the ghost rows of the other side and "
+                           "is folded onto the wrong result row - the ghost region below row 0 has fewer rows than the largest shift")
+            elif s_lo not in ("nonneg", "pos", "zero"):
+                unknown.append(f"lowest work-array row {lo_v} ({par} number of points) not decided against 0")
+            if s_hi == "neg":
+                bad.append(f"for an {par} number of stencil points the contribution of the last source row with the smallest shift goes to "
+                           f"work-array row {sp.simplify(parities(concretise(amax, facts))[idx])}, beyond the last row of the work array "
+                           f"({sp.simplify(parities(concretise(M - 1, facts))[idx])}): IndexError - the ghost region above the last row is too small")
+            elif s_hi not in ("nonneg", "pos", "zero"):
+                unknown.append(f"highest work-array row ({par} number of points) not decided against the size of the work array")
+    # fold pieces
+    pieces = []
+    for ev, dlo, dhi, b_, blo, bhi, kind in m["folds"]:
+        if b_ != buf or ev.guards:
+            unknown.append(f"`{src(ev.node)[:60]}`: conditional fold / another work array".replace("P_", ""))
+            continue
+        try:
+            z = Integer(0)
+            pieces.append((ev, to_sym(dlo) if dlo is not None else z, to_sym(dhi) if dhi is not None else NZ,
+                           to_sym(blo) if blo is not None else z, to_sym(bhi) if bhi is not None else M, kind))
+        except (Undecided, TypeError) as e:
+            unknown.append(f"`{src(ev.node)[:60]}`: {e}".replace("P_", ""))
+    if not m["folds"]:
+        unknown.append("the work array that receives the stencil contributions is never folded onto the result")
+    if M is not None and pieces and not unknown:
+        same = lambda a, b: all(x == 0 for x in parities(concretise(sp.simplify(a - b), facts))) or sp.simplify(a - b) == 0
+        # (2) tiling of the buffer rows
+        cur, left = Integer(0), list(pieces)
+        while left:
+            nxt = [p_ for p_ in left if same(p_[3], cur)]
+            if len(nxt) != 1:
+                break
+            cur = nxt[0][4]
+            left.remove(nxt[0])
+        if left or not same(cur, M):
+            unknown.append(f"the folded row ranges {[(str(p_[3]), str(p_[4])) for p_ in pieces]} of the work array are not shown to tile [0, {M})")
+        for ev, dlo, dhi, blo, bhi, kind in pieces:
+            if not same(dhi - dlo, bhi - blo):
+                unknown.append(f"`{src(ev.node)[:60]}`: {dhi - dlo} result rows receive {bhi - blo} work-array rows".replace("P_", ""))
+            for off in offsets:
+                d = sp.simplify(concretise(dlo - blo + off, facts))
+                q_ = sp.simplify(d / NZ)
+                if not all(x.is_integer for x in parities(q_)):
+                    if all(sp.simplify(x).is_number or not sp.simplify(x).has(NZ) for x in parities(d)) and not any(x == 0 for x in parities(d)):
+                        bad.append(f"`{src(ev.node)[:70]}` sends work-array row x to result row x + ({sp.simplify(dlo - blo)}), but row x holds the "
+                                   f"contributions for line x - ({off}): the fold is off by {d} rows (not a multiple of nz)".replace("P_", ""))
+                    else:
+                        unknown.append(f"`{src(ev.node)[:60]}`: shift {d} of the fold not decided to be a multiple of nz".replace("P_", ""))
+        assigns = [p_ for p_ in pieces if p_[5] == "assign"]
+        if assigns:
+            first = min(pieces, key=lambda p_: p_[0].node.lineno)
+            if len(assigns) != 1 or assigns[0] is not first or not (same(assigns[0][1], Integer(0)) and same(assigns[0][2], NZ)):
+                unknown.append("the assignment that starts the fold does not come first / does not cover all rows of the result")
+        elif not m["clears"]:
+            unknown.append("the fold only adds to the result, which is not cleared before")
+    m["fold_report"] = (node, bad, unknown, buf)
+    if unknown and not bad:
+        m["why"] = m["why"] or ("scatter through a work array: " + unknown[0])
+    # hand the contributions on, as contributions to result row (k - s_j) mod nz
+    for c in m["buffered"]:
+        if c.row is None or c.sten is None:
+            continue
+        c.buffer_target = c.target
+        c.target = ast.BinOp(left=ast.BinOp(left=_name(c.row.sym), op=ast.Sub(),
+                                            right=ast.Subscript(value=ast.parse("self._shifts", mode="eval").body, slice=_name(c.sten.sym), ctx=ast.Load())),
+                             op=ast.Mod(), right=ast.parse("self._nz", mode="eval").body)
+        m["contribs"].append(c)
+    # the work array starts from zero: that is the clearing of the accumulation
+    if alloc_name in ("zeros", "zeros_like") and any(p_[5] == "assign" for p_ in pieces):
+        class _N:
+            pass
+        ev0 = _N()
+        ev0.node, ev0.guards = fl.buffers[buf], []
+        m["clears"].append((ev0, ast.Constant(value=0)))
 
 
 def _mentions(e, name):
@@ -1341,6 +1643,14 @@ def regimes(chk):
     facts = stencil_facts(chk)
     q = f"{CLS}.parallel_gradient"
     cs = m["contribs"]
+    if m.get("fold_report"):
+        node, fbad, funknown, buf = m["fold_report"]
+        okf = False if fbad else (None if funknown else True)
+        chk.ob("F7-regimes", node, "scatter through a work array with ghost rows, folded onto the periodic images", okf,
+               "every contribution (row k, entry j) stays inside the work array for the extreme shifts and the fold statements send it to "
+               "result row (k - s_j) mod nz" if okf else "; ".join(dict.fromkeys(fbad + funknown)), file=U.ADV, func=q)
+        if fbad:
+            return m
     if m["why"] or not cs or any(c.row is None for c in cs):
         chk.ob("F7-regimes", fn, "source rows tile [0, nz)", None,
                "scatter not followed: " + (m["why"] or ("no accumulation into the result found" if not cs else
@@ -1489,6 +1799,92 @@ def _radius_index_kind(rad, m):
     return None
 
 
+def _dedup_map_kind(chk, rad):
+    """`self._thetaVals[self.M[i]]` with M the inverse map of a de-duplication: `_, F, self.M = np.unique(X, return_index=True,
+    return_inverse=True)` guarantees X[F[M[i]]] == X[i]; when table row t is built for radius r[F[t]] (fill loop over enumerate(F)),
+    X is an element-wise function g of the local radii, and the table depends on the radius through g(r) only, row M[i] IS the table
+    of radius r_i.  -> 'consistent' / None"""
+    if not (isinstance(rad, ast.Subscript) and isinstance(rad.slice, ast.Name) and rad.slice.id == "P_i"):
+        return None
+    M = src(rad.value)
+    if not M.startswith("self."):
+        return None
+    init = chk.func(U.ADV, f"{CLS}.__init__")
+    uniq = None
+    for st in ast.walk(init):
+        if isinstance(st, ast.Assign) and len(st.targets) == 1 and isinstance(st.targets[0], ast.Tuple) and isinstance(st.value, ast.Call) \
+                and src(st.value.func) in ("np.unique", "numpy.unique") and len(st.value.args) == 1:
+            kw = {k.arg: k.value for k in st.value.keywords}
+            flags = [k for k in ("return_index", "return_inverse", "return_counts") if isinstance(kw.get(k), ast.Constant) and kw[k].value is True]
+            if set(kw) - {"return_index", "return_inverse", "return_counts"} or len(flags) + 1 != len(st.targets[0].elts):
+                continue
+            outs = dict(zip(["values"] + flags, st.targets[0].elts))
+            if "return_index" in outs and "return_inverse" in outs and src(outs["return_inverse"]) == M:
+                uniq = (st, st.value.args[0], outs["return_index"])
+    if uniq is None:
+        return None
+    st_u, X, F = uniq
+    if any(isinstance(n, (ast.Assign, ast.AugAssign)) and n is not st_u and
+           src(n.targets[0] if isinstance(n, ast.Assign) else n.target).split("[")[0] == M for cls_m in chk.mod(U.ADV).methods(CLS).values()
+           for n in ast.walk(cls_m)):
+        return None                 # the map is written elsewhere too
+    # X = g(r) element-wise in the local radii
+    defs = {}
+    for n in ast.walk(init):
+        if isinstance(n, ast.Assign) and len(n.targets) == 1 and isinstance(n.targets[0], ast.Name):
+            defs.setdefault(n.targets[0].id, []).append(n.value)
+    e = X
+    for _ in range(4):
+        if isinstance(e, ast.Name) and len(defs.get(e.id, [])) == 1:
+            e = defs[e.id][0]
+        elif isinstance(e, ast.Call) and src(e.func) in ("np.array", "np.asarray", "np.fromiter", "list") and e.args:
+            e = e.args[0]
+        else:
+            break
+    g_of = None
+    if isinstance(e, (ast.ListComp, ast.GeneratorExp)) and len(e.generators) == 1 and not e.generators[0].ifs and isinstance(e.generators[0].target, ast.Name):
+        it = e.generators[0].iter
+        if isinstance(it, ast.Name) and len(defs.get(it.id, [])) == 1 and src(defs[it.id][0]).startswith("eta_grid[0]["):
+            elt = e.elt
+            while isinstance(elt, ast.Call) and src(elt.func) in ("float", "np.float64") and len(elt.args) == 1:
+                elt = elt.args[0]
+            if isinstance(elt, ast.Call) and len(elt.args) == 1 and isinstance(elt.args[0], ast.Name) and elt.args[0].id == e.generators[0].target.id:
+                g_of, rname = src(elt.func), it.id
+    elif isinstance(e, ast.Call) and len(e.args) == 1 and isinstance(e.args[0], ast.Name) and len(defs.get(e.args[0].id, [])) == 1 \
+            and src(defs[e.args[0].id][0]).startswith("eta_grid[0]["):
+        g_of, rname = src(e.func), e.args[0].id
+    if g_of not in ("constants.iota",):
+        return None
+    # fill loop: row t of the table is built for radius r[F[t]]
+    ok_fill = False
+    for lp in ast.walk(init):
+        if isinstance(lp, ast.For) and isinstance(lp.iter, ast.Call) and src(lp.iter.func) == "enumerate" and len(lp.iter.args) == 1 \
+                and src(lp.iter.args[0]) == src(F) and isinstance(lp.target, ast.Tuple) and len(lp.target.elts) == 2 \
+                and all(isinstance(x, ast.Name) for x in lp.target.elts):
+            t_, i_ = (x.id for x in lp.target.elts)
+            calls = [c for c in ast.walk(lp) if isinstance(c, ast.Call) and src(c.func) == "self._getThetaVals"]
+            if len(calls) == 1 and len(calls[0].args) >= 2 and src(calls[0].args[0]) == f"{rname}[{i_}]" and src(calls[0].args[1]) == f"self._thetaVals[{t_}]":
+                ok_fill = True
+    if not ok_fill:
+        return None
+    # the table depends on the radius through iota(r) only (field line: theta + iota(r) z / R0)
+    try:
+        fl = chk.func(U.ADV, "fieldline")
+        from .C10 import geometry_env, FMOD
+        from ..symx import Wrap, PI
+        g = geometry_env()
+        th, zd = sp.symbols("theta z_diff", real=True)
+        n2 = NpSym(env={"theta": th, "z_diff": zd, "r": g["r"], "R0": g["R0"], "iota": g["iota"], "fmod": FMOD})
+        body = [s_ for s_ in fl.body if not (isinstance(s_, ast.Expr) and isinstance(s_.value, ast.Constant))]
+        n2.run(body[:-1])
+        val = n2.ev(body[-1].value)
+        if g["r"] in val.subs(g["iota"](g["r"]), Symbol("iota_value")).free_symbols:
+            return None
+    except Exception:          # noqa: BLE001
+        return None
+    return "consistent"
+
+
 def gradient_formula(chk, m):
     from ..core import same_expr
     fn = m["fn"]
@@ -1510,7 +1906,7 @@ def gradient_formula(chk, m):
             # target row = row - shift_j (mod nz)
             try:
                 core, wr = strip_mod(to_sym(c.target))
-                d = sp.simplify(core - (k - SHIFT(j)))
+                d = sp.simplify(core - (k - facts["conv"](SHIFT(j))))
                 if d != 0 and not (wr and sp.simplify(d / NZ).is_integer):
                     if sp.simplify(core - (k + SHIFT(j))) == 0:
                         bad.append(f"the contribution of source row r with shift s is accumulated into row r + s (`{src(c.ev.node.target if isinstance(c.ev.node, ast.AugAssign) else c.ev.node.targets[0])}`), "
@@ -1561,7 +1957,7 @@ def gradient_formula(chk, m):
                 if not (isinstance(rad, ast.Name) and rad.id == "P_i"):
                     # another expression: wrong when it is a fixed index or a loop counter; a consistent re-basing of the radial index
                     # (the same expression selects b_z) is engine C's subject (index spaces), not a violation here
-                    kind = _radius_index_kind(rad, m)
+                    kind = _radius_index_kind(rad, m) or _dedup_map_kind(chk, rad)
                     txt = f"the angle table is that of radius index `{src(rad).replace('P_', '')}`, not of the slice's index i"
                     if kind == "wrong":
                         bad.append(txt + " (a fixed index / a loop counter that has taken the place of the radius index)")
@@ -1711,8 +2107,16 @@ def run(chk):
         "ranges tile [0, nz), each contribution pairs shift, coefficient and angle column of the same stencil entry and targets "
         "row (row - s_j) mod nz, unwrapped targets stay inside [-nz, nz); total scale b_z(r_i)/dz applied once; b_z and pitch "
         "agree with the flux-surface advection; the precomputed tables are not mutated by a call; index-space typing of the "
-        "per-radius tables (engine C). Convergence order is not decided.")
+        "per-radius tables (engine C). The meaning of a stored shift is fixed by the scatter (target row = source row - tau, tau = g(stored "
+        "shift)): the moment system, the angle table and the regime bounds are compared with tau, so a consistent change of sign "
+        "convention holds and a one-sided one is reported where the sides disagree. A scatter through a work array with ghost rows is "
+        "composed with the fold statements (rows stay inside the work array for the extreme shifts of either parity, the folded ranges "
+        "tile it, each fold shifts by a multiple of nz). np.mod/np.add/... are read as the operators, fmod is not a periodic wrap, the "
+        "row loop and the stencil loop may be nested either way, an angle table de-duplicated through np.unique(return_index, "
+        "return_inverse) is followed. Convergence order is not decided.")
     chk.in_file(U.ADV)
+    from .C05 import normalise_structures
+    normalise_structures(chk, U.ADV)
     fd_system(chk)
     theta_table(chk)
     m = regimes(chk)
